@@ -700,6 +700,7 @@ class IsoHybrid:
             raise pycdlibexception.PyCdlibInvalidISO('Invalid IsoHybrid unused2')
 
         psize = 0
+        esect = 0
         ecyle = 0
         offset = 32 + struct.calcsize(self.FMT)
         for i in range(1, 5):
@@ -730,6 +731,12 @@ class IsoHybrid:
         self.geometry_heads = self.ehead + 1
 
         self.geometry_sectors = min((psize + self.part_offset) // ((ecyle + 1) * self.geometry_heads), 63)
+        if ecyle == 1023 and (esect & 0x3f) != 0:
+            # The ending cylinder is capped at 1023 while the size is not, so
+            # the partition may well have more cylinders than that.  It ends
+            # on the last sector of a cylinder, though, and that one is the
+            # number of sectors per cylinder.
+            self.geometry_sectors = esect & 0x3f
 
         if self.efi:
             self.primary_gpt.parse_primary(instr, self.mac)
@@ -885,10 +892,13 @@ class IsoHybrid:
         for i in range(1, 5):
             raw = b'\x00' * 16
             if i == self.part_entry:
-                cc = self._calc_cc(iso_size)[0]
+                (cc, padding) = self._calc_cc(iso_size)
                 esect = self.geometry_sectors + (((cc - 1) & 0x300) >> 2)
                 ecyle = (cc - 1) & 0xff
-                psize = cc * self.geometry_heads * self.geometry_sectors - self.part_offset
+                # Only the ending cylinder is capped at what fits into the CHS
+                # address; the partition itself still has to cover all of the
+                # cylinders of the padded ISO.
+                psize = (iso_size + padding) // 512 - self.part_offset
                 raw = struct.pack('<BBBBBBBBLL', 0x80, self.bhead, self.bsect,
                                   self.bcyle, self.ptype, self.ehead, esect,
                                   ecyle, self.part_offset, psize)
